@@ -205,6 +205,46 @@ def ctor_guard_on_raw_value(s):
                 lambda m: m.group(1) + '        cs = column_solver.lower() if isinstance(column_solver, str) else "qr"\n        if not (cs == "qr" or cs == "spd"):\n')
 
 
+EIG_HERM = ("    A_hermitian = quat_hermitian(A_quat)\n"
+            "    is_hermitian = np.allclose(A_quat, A_hermitian, atol=1e-10)\n")
+
+
+def eig_herm_upper_only(s):
+    """F (blind mutant mw3/C20/A): quaternion_eigendecomposition compares the strict upper triangle with the conjugated lower
+    one (np.triu_indices(m, k=1)); the diagonal is unchecked, so a 1x1 matrix with a non-zero imaginary part takes the 1x1
+    shortcut and is answered (m >= 2 is still rejected by tridiagonalize's own guard)."""
+    assert s.count(EIG_HERM) == 1
+    return s.replace(EIG_HERM, "    upper = np.triu_indices(m, k=1)\n    is_hermitian = np.allclose(\n"
+                               "        A_quat[upper], np.conjugate(A_quat.T[upper]), atol=1e-10\n    )\n")
+
+
+def eig_herm_upper_with_diag(s):
+    """S: same spelling with np.triu_indices(m, k=0): upper triangle including the diagonal is the full Hermitian test."""
+    assert s.count(EIG_HERM) == 1
+    return s.replace(EIG_HERM, "    upper = np.triu_indices(m, k=0)\n    is_hermitian = np.allclose(\n"
+                               "        A_quat[upper], np.conjugate(A_quat.T[upper]), atol=1e-10\n    )\n")
+
+
+def eig_herm_triu_mask_only(s):
+    """F: same weakening spelled with masks np.triu(A, 1) against np.triu(A^H, 1)."""
+    assert s.count(EIG_HERM) == 1
+    return s.replace(EIG_HERM, "    A_hermitian = quat_hermitian(A_quat)\n    is_hermitian = np.allclose(np.triu(A_quat, 1), "
+                               "np.triu(A_hermitian, 1), atol=1e-10)\n")
+
+
+def eig_1x1_before_guard(s):
+    """F (blind mutant mw3/C08/B): the 1x1 early return is moved above the Hermitian guard."""
+    blk = ("    if m == 1:\n"
+           "        # 1x1 Hermitian matrix: eigenvalue is the real part of the single element\n"
+           "        element = A_quat[0, 0]\n"
+           "        eigenvalue = complex(element.w, 0.0)  # Hermitian matrix has real eigenvalues\n"
+           "        eigenvector = np.array([[1.0]], dtype=np.quaternion)\n"
+           "        return np.array([eigenvalue]), eigenvector\n\n")
+    assert s.count(blk) == 1
+    s = s.replace(blk, "")
+    return s.replace("    # Check if matrix is Hermitian\n", blk + "    # Check if matrix is Hermitian\n", 1)
+
+
 MUTANTS = {
     "guard_after_X0": ("quatica/solver.py", guard_after_X0, "S"),
     "guard_after_sketch": ("quatica/solver.py", guard_after_sketch, "S"),
@@ -235,6 +275,10 @@ MUTANTS = {
     "pinh_format_guard_removed": ("quatica/utils.py", pinh_format_guard_removed, "F"),
     "ctor_guard_removed": ("quatica/solver.py", ctor_guard_removed, "F"),
     "ctor_guard_on_raw_value": ("quatica/solver.py", ctor_guard_on_raw_value, "S"),
+    "eig_herm_upper_only": ("quatica/decomp/eigen.py", eig_herm_upper_only, "F"),
+    "eig_herm_upper_with_diag": ("quatica/decomp/eigen.py", eig_herm_upper_with_diag, "S"),
+    "eig_herm_triu_mask_only": ("quatica/decomp/eigen.py", eig_herm_triu_mask_only, "F"),
+    "eig_1x1_before_guard": ("quatica/decomp/eigen.py", eig_1x1_before_guard, "F"),
 }
 
 
